@@ -1,20 +1,569 @@
 //! C05 — numeric literals are parsed to their exact value or rejected.
+//!
+//! Streams (in this order; the case index is the replay key):
+//!  1. corpus of hand-written witnesses (past failures first) in every operand position;
+//!  2. lexer: exhaustive short strings over two number-centred alphabets, full token list compared;
+//!  3. literal spellings (all radices x lengths x separator placements x signs x boundary values, floats
+//!     with/without exponent, denormals, overflow) in EVERY operand position, through
+//!     `Program::from_str`, operand read back from the AST;
+//!  4. seeded random spellings (valid and mutated) in random positions and through the lexer.
+use num_complex::Complex64;
+use quil_rs::expression::{Expression, PrefixOperator};
+use quil_rs::instruction::{
+    ArithmeticOperand, AttributeValue, BinaryOperand, ComparisonOperand, GateSpecification, Instruction,
+    PragmaArgument, Qubit, UnresolvedCallArgument,
+};
+use quil_rs::Program;
 use qvh::lexwire::{all_strings, lex_case};
 use qvh::*;
+use std::str::FromStr;
 
 const A1: [char; 10] = ['0', '1', '9', '_', '.', 'e', 'E', '+', '-', ' '];
 const A2: [char; 14] = ['0', '1', '7', '8', 'x', 'X', 'b', 'o', '_', '.', 'a', 'f', 'g', 'i'];
+
+/// (position name, operand kind, text before the literal, text after it)
+/// kind: arith | cmp | logic | imm | expr | nat
+const POSITIONS: &[(&str, &str, &str, &str)] = &[
+    ("move", "arith", "MOVE ro[0] ", ""),
+    ("add", "arith", "ADD ro ", ""),
+    ("sub", "arith", "SUB ro[1] ", ""),
+    ("mul", "arith", "MUL ro ", ""),
+    ("div", "arith", "DIV ro ", ""),
+    ("store", "arith", "STORE a b[0] ", ""),
+    ("eq", "cmp", "EQ a b ", ""),
+    ("gt", "cmp", "GT a b[1] ", ""),
+    ("ge", "cmp", "GE a b ", ""),
+    ("lt", "cmp", "LT a b ", ""),
+    ("le", "cmp", "LE a b ", ""),
+    ("and", "logic", "AND a ", ""),
+    ("ior", "logic", "IOR a ", ""),
+    ("xor", "logic", "XOR a ", ""),
+    ("shl", "logic", "SHL a ", ""),
+    ("shr", "logic", "SHR a ", ""),
+    ("ashr", "logic", "ASHR a ", ""),
+    ("call", "imm", "CALL f ", ""),
+    ("gateparam", "expr", "RX(", ") 0"),
+    ("gateparam2", "expr", "U(pi, ", ") 0 1"),
+    ("setfreq", "expr", "SET-FREQUENCY 0 \"f\" ", ""),
+    ("shiftphase", "expr", "SHIFT-PHASE 0 \"f\" ", ""),
+    ("rawcapture", "expr", "RAW-CAPTURE 0 \"f\" ", " ro"),
+    ("delay", "expr", "DELAY 0 \"f\" ", ""),
+    ("wfparam", "expr", "PULSE 0 \"f\" w(a: ", ")"),
+    ("frameattr", "expr", "DEFFRAME 0 \"f\":\n\tSAMPLE-RATE: ", ""),
+    ("defwaveform", "expr", "DEFWAVEFORM w:\n\t", ", 0"),
+    ("defgatematrix", "expr", "DEFGATE G AS MATRIX:\n\t", ", 0\n\t0, 1"),
+    ("defcalparam", "expr", "DEFCAL RX(", ") 0:\n\tNOP"),
+    ("permutation", "nat", "DEFGATE P AS PERMUTATION:\n\t", ", 0"),
+    ("permutation2", "nat", "DEFGATE P AS PERMUTATION:\n\t1, ", ""),
+    ("pragmaarg", "nat", "PRAGMA name ", ""),
+    ("pragmaarg2", "nat", "PRAGMA name a ", " \"data\""),
+    ("declarelen", "nat", "DECLARE x REAL[", "]"),
+    ("qubit", "nat", "X ", ""),
+    ("qubit2", "nat", "CNOT 1 ", ""),
+    ("measurequbit", "nat", "MEASURE ", " ro"),
+    ("memindex", "nat", "MOVE ro[", "] 1"),
+    ("memindexexpr", "nat", "RX(theta[", "]) 0"),
+    ("measuretarget", "nat", "MEASURE 0 ro[", "]"),
+    ("sharingoffset", "nat", "DECLARE x BIT[2] SHARING y OFFSET ", " BIT"),
+];
+
+fn arith(op: &ArithmeticOperand) -> Sexp {
+    match op {
+        ArithmeticOperand::LiteralInteger(z) => tagged("int", vec![int(*z)]),
+        ArithmeticOperand::LiteralReal(x) => tagged("real", vec![f64bits(*x)]),
+        ArithmeticOperand::MemoryReference(_) => tagged("other", vec![]),
+    }
+}
+fn cmp(op: &ComparisonOperand) -> Sexp {
+    match op {
+        ComparisonOperand::LiteralInteger(z) => tagged("int", vec![int(*z)]),
+        ComparisonOperand::LiteralReal(x) => tagged("real", vec![f64bits(*x)]),
+        ComparisonOperand::MemoryReference(_) => tagged("other", vec![]),
+    }
+}
+fn logic(op: &BinaryOperand) -> Sexp {
+    match op {
+        BinaryOperand::LiteralInteger(z) => tagged("int", vec![int(*z)]),
+        BinaryOperand::MemoryReference(_) => tagged("other", vec![]),
+    }
+}
+fn cplx(z: &Complex64) -> Sexp {
+    tagged("num", vec![f64bits(z.re), f64bits(z.im)])
+}
+fn expr(e: &Expression) -> Sexp {
+    match e {
+        Expression::Number(z) => cplx(z),
+        Expression::Prefix(p) if p.operator == PrefixOperator::Minus => match &*p.expression {
+            Expression::Number(z) => tagged("neg", vec![cplx(z)]),
+            _ => tagged("other", vec![]),
+        },
+        _ => tagged("other", vec![]),
+    }
+}
+fn addr_index(e: &Expression) -> Sexp {
+    match e {
+        Expression::Address(m) => tagged("nat", vec![nat(m.index)]),
+        _ => tagged("other", vec![]),
+    }
+}
+fn qubit(q: &Qubit) -> Sexp {
+    match q {
+        Qubit::Fixed(n) => tagged("nat", vec![nat(*n)]),
+        _ => tagged("other", vec![]),
+    }
+}
+
+/// Read the operand back from the parsed program; `(other)` when the program does not have the
+/// template's shape (extra instructions, a different operand kind, …).
+fn extract(pos: &str, p: &Program) -> Sexp {
+    let other = || tagged("other", vec![]);
+    let is = p.to_instructions();
+    if is.len() != 1 {
+        return other();
+    }
+    match (pos, &is[0]) {
+        ("move", Instruction::Move(m)) => arith(&m.source),
+        ("add" | "sub" | "mul" | "div", Instruction::Arithmetic(a)) => arith(&a.source),
+        ("store", Instruction::Store(s)) => arith(&s.source),
+        ("eq" | "gt" | "ge" | "lt" | "le", Instruction::Comparison(c)) => cmp(&c.rhs),
+        ("and" | "ior" | "xor" | "shl" | "shr" | "ashr", Instruction::BinaryLogic(b)) => logic(&b.source),
+        ("call", Instruction::Call(c)) if c.arguments.len() == 1 => match &c.arguments[0] {
+            UnresolvedCallArgument::Immediate(z) => cplx(z),
+            _ => other(),
+        },
+        ("gateparam", Instruction::Gate(g)) if g.parameters.len() == 1 && g.qubits.len() == 1 => {
+            expr(&g.parameters[0])
+        }
+        ("gateparam2", Instruction::Gate(g)) if g.parameters.len() == 2 && g.qubits.len() == 2 => {
+            expr(&g.parameters[1])
+        }
+        ("setfreq", Instruction::SetFrequency(s)) => expr(&s.frequency),
+        ("shiftphase", Instruction::ShiftPhase(s)) => expr(&s.phase),
+        ("rawcapture", Instruction::RawCapture(r)) => expr(&r.duration),
+        ("delay", Instruction::Delay(d)) if d.qubits.len() == 1 && d.frame_names.len() == 1 => expr(&d.duration),
+        ("wfparam", Instruction::Pulse(pl)) if pl.waveform.parameters.len() == 1 => {
+            pl.waveform.parameters.get("a").map(expr).unwrap_or_else(other)
+        }
+        ("frameattr", Instruction::FrameDefinition(f)) if f.attributes.len() == 1 => {
+            match f.attributes.get("SAMPLE-RATE") {
+                Some(AttributeValue::Expression(e)) => expr(e),
+                _ => other(),
+            }
+        }
+        ("defwaveform", Instruction::WaveformDefinition(w)) if w.definition.matrix.len() == 2 => {
+            expr(&w.definition.matrix[0])
+        }
+        ("defgatematrix", Instruction::GateDefinition(g)) => match &g.specification {
+            GateSpecification::Matrix(m) if m.len() == 2 && m[0].len() == 2 && m[1].len() == 2 => expr(&m[0][0]),
+            _ => other(),
+        },
+        ("defcalparam", Instruction::CalibrationDefinition(c))
+            if c.identifier.parameters.len() == 1 && c.identifier.qubits.len() == 1 =>
+        {
+            expr(&c.identifier.parameters[0])
+        }
+        ("permutation", Instruction::GateDefinition(g)) => match &g.specification {
+            GateSpecification::Permutation(v) if v.len() == 2 => tagged("nat", vec![nat(v[0])]),
+            _ => other(),
+        },
+        ("permutation2", Instruction::GateDefinition(g)) => match &g.specification {
+            GateSpecification::Permutation(v) if v.len() == 2 => tagged("nat", vec![nat(v[1])]),
+            _ => other(),
+        },
+        ("pragmaarg", Instruction::Pragma(pr)) if pr.arguments.len() == 1 && pr.data.is_none() => {
+            match &pr.arguments[0] {
+                PragmaArgument::Integer(n) => tagged("nat", vec![nat(*n)]),
+                _ => other(),
+            }
+        }
+        ("pragmaarg2", Instruction::Pragma(pr)) if pr.arguments.len() == 2 && pr.data.is_some() => {
+            match &pr.arguments[1] {
+                PragmaArgument::Integer(n) => tagged("nat", vec![nat(*n)]),
+                _ => other(),
+            }
+        }
+        ("declarelen", Instruction::Declaration(d)) => tagged("nat", vec![nat(d.size.length)]),
+        ("qubit", Instruction::Gate(g)) if g.qubits.len() == 1 => qubit(&g.qubits[0]),
+        ("qubit2", Instruction::Gate(g)) if g.qubits.len() == 2 => qubit(&g.qubits[1]),
+        ("measurequbit", Instruction::Measurement(m)) if m.target.is_some() => qubit(&m.qubit),
+        ("memindex", Instruction::Move(m)) => tagged("nat", vec![nat(m.destination.index)]),
+        ("memindexexpr", Instruction::Gate(g)) if g.parameters.len() == 1 && g.qubits.len() == 1 => {
+            addr_index(&g.parameters[0])
+        }
+        ("measuretarget", Instruction::Measurement(m)) => match &m.target {
+            Some(t) => tagged("nat", vec![nat(t.index)]),
+            None => other(),
+        },
+        ("sharingoffset", Instruction::Declaration(d)) => match &d.sharing {
+            Some(s) if s.offsets.len() == 1 => tagged("nat", vec![nat(s.offsets[0].offset)]),
+            _ => other(),
+        },
+        _ => other(),
+    }
+}
+
+/// What Rust's std (an implementation independent of `lexical`) makes of the spelling as a real
+/// literal: sign and `_` stripped, an optional trailing `i` dropped.  `-` when std rejects it.
+fn std_bits(spelling: &str) -> Sexp {
+    let s = spelling.strip_prefix('-').unwrap_or(spelling);
+    let s = s.strip_suffix('i').unwrap_or(s);
+    let stripped: String = s.chars().filter(|&c| c != '_').collect();
+    let plausible = !stripped.is_empty()
+        && stripped.chars().all(|c| c.is_ascii_digit() || matches!(c, '.' | 'e' | 'E' | '+' | '-'))
+        && stripped.chars().any(|c| c.is_ascii_digit())
+        && !stripped.starts_with(['+', '-']);
+    if !plausible {
+        return atom("-");
+    }
+    match stripped.parse::<f64>() {
+        Ok(x) => f64bits(x),
+        Err(_) => atom("-"),
+    }
+}
+
+fn pos_case(ctx: &mut Ctx, pos: &'static (&'static str, &'static str, &'static str, &'static str), spelling: &str) {
+    let (name, kind, pre, post) = *pos;
+    let text = format!("{pre}{spelling}{post}");
+    let input = tagged("pos", vec![atom(name), atom(kind), st(spelling), std_bits(spelling)]);
+    ctx.case(input, move || match Program::from_str(&text) {
+        Ok(p) => extract(name, &p),
+        Err(_) => tagged("err", vec![]),
+    });
+}
+
+fn all_positions(ctx: &mut Ctx, spelling: &str) {
+    for pos in POSITIONS {
+        pos_case(ctx, pos, spelling);
+    }
+}
+
+// ---------------------------------------------------------------- spelling generators
+
+fn to_radix(mut v: u128, radix: u32, upper: bool) -> String {
+    if v == 0 {
+        return "0".to_string();
+    }
+    let mut out = Vec::new();
+    while v > 0 {
+        let d = (v % radix as u128) as u32;
+        let c = char::from_digit(d, radix).unwrap();
+        out.push(if upper { c.to_ascii_uppercase() } else { c });
+        v /= radix as u128;
+    }
+    out.iter().rev().collect()
+}
+
+fn prefix(radix: u32, upper: bool) -> &'static str {
+    match (radix, upper) {
+        (2, false) => "0b",
+        (2, true) => "0B",
+        (8, false) => "0o",
+        (8, true) => "0O",
+        (16, false) => "0x",
+        (16, true) => "0X",
+        _ => "",
+    }
+}
+
+/// Separator placements of a digit string: none, one internal, doubled internal, trailing, every gap.
+fn separator_variants(digits: &str) -> Vec<String> {
+    let mut v = vec![digits.to_string()];
+    let n = digits.len();
+    if n >= 2 {
+        let mid = n / 2;
+        v.push(format!("{}_{}", &digits[..mid], &digits[mid..]));
+        v.push(format!("{}__{}", &digits[..1], &digits[1..]));
+        v.push(digits.chars().map(|c| c.to_string()).collect::<Vec<_>>().join("_"));
+    }
+    v.push(format!("{digits}_"));
+    v.push(format!("{digits}__"));
+    v
+}
+
+const BOUNDARY: &[u128] = &[
+    0,
+    1,
+    7,
+    (1 << 31) - 1,
+    1 << 31,
+    (1 << 32) - 1,
+    1 << 32,
+    (1 << 53) - 1,
+    1 << 53,
+    (1 << 53) + 1,
+    (1 << 63) - 1,
+    1 << 63,
+    (1 << 63) + 1,
+    (1 << 64) - 1,
+    1 << 64,
+    (1 << 64) + 1,
+    10_000_000_000_000_000_000,
+    100_000_000_000_000_000_000,
+    (1 << 64) * 16 + 5,
+];
+
+const SIGNS: &[&str] = &["", "-", "+"];
+
+fn integer_spellings(quick: bool) -> Vec<String> {
+    let mut out = Vec::new();
+    // boundary values in every radix, prefix case, leading zeros, separator placements, signs
+    for &v in BOUNDARY {
+        for radix in [2u32, 8, 10, 16] {
+            for upper in [false, true] {
+                if radix == 10 && upper {
+                    continue;
+                }
+                let digits = to_radix(v, radix, upper && radix == 16);
+                let variants = if quick { vec![digits.clone(), format!("{digits}_")] } else { separator_variants(&digits) };
+                for d in variants {
+                    for sign in SIGNS {
+                        if quick && *sign == "+" && v > 7 {
+                            continue;
+                        }
+                        out.push(format!("{sign}{}{d}", prefix(radix, upper)));
+                    }
+                }
+                if !quick || v == (1 << 64) - 1 || v == 1 << 63 {
+                    out.push(format!("{}000{digits}", prefix(radix, upper)));
+                    if radix != 10 {
+                        out.push(format!("{}_{digits}", prefix(radix, upper)));
+                        out.push(format!("-{}__{digits}", prefix(radix, upper)));
+                    }
+                }
+            }
+        }
+    }
+    // every length 1..=22 digits, all-max digit and 1-then-zeros, every radix
+    for radix in [2u32, 8, 10, 16] {
+        let maxd = char::from_digit(radix - 1, radix).unwrap();
+        let lens: Vec<usize> = if radix == 2 { vec![1, 2, 31, 32, 53, 62, 63, 64, 65, 66] } else { (1..=22).collect() };
+        for len in lens {
+            let all_max: String = std::iter::repeat(maxd).take(len).collect();
+            let one_zeros: String = std::iter::once('1').chain(std::iter::repeat('0').take(len - 1)).collect();
+            for d in [all_max, one_zeros] {
+                out.push(format!("{}{d}", prefix(radix, false)));
+                out.push(format!("-{}{d}", prefix(radix, false)));
+                if !quick {
+                    for s in separator_variants(&d).into_iter().skip(1) {
+                        out.push(format!("{}{s}", prefix(radix, false)));
+                    }
+                }
+            }
+        }
+    }
+    // malformed / odd
+    for s in [
+        "0x", "0b", "0o", "0x_", "0b__", "0xg", "0b2", "0o8", "0b12", "0o78", "0x1g", "_1", "1_", "1__", "00", "007",
+        "0_0", "0x0_", "1i", "0x1i", "1_i", "--1", "- 1", "-_1", "-0", "-0x0", "+0", "0X_fF", "0xe5", "0b1e5", "1e", "0e0",
+    ] {
+        out.push(s.to_string());
+    }
+    out
+}
+
+fn float_spellings(quick: bool) -> Vec<String> {
+    let base: Vec<&str> = vec![
+        "0.", ".0", "0.0", "1.", ".1", "1.1", "1.0", "2.5", "1e5", "1E5", "1.e5", ".1e5", "1.1e5", "1e+5", "1e-5", "1E+5",
+        "1e05", "1e0", "0e0", "0.0e0", "1.5e-3", "00.5", "007.25", "3.14159", "6.02214076e23", "1e22", "1e23", "8.5e-1",
+        // halfway / boundary cases
+        "9007199254740992.0", "9007199254740993.0", "9007199254740993.0000000000000000001", "9007199254740994.0",
+        "9007199254740995.0", "1.00000000000000011102230246251565404236316680908203125",
+        "1.00000000000000011102230246251565404236316680908203124", "1.00000000000000011102230246251565404236316680908203126",
+        "0.1", "0.2", "0.3", "0.30000000000000004", "123456789012345678901234567890.0", "0.000000000000000000000000000001",
+        // denormals and underflow
+        "4.9e-324", "5e-324", "2.4703282292062327e-324", "2.4703282292062328e-324", "2.4703282292062327208e-324",
+        "2.4703282292062327209e-324", "1e-323", "2.2250738585072014e-308", "2.2250738585072011e-308", "1e-400", "1e-330",
+        "0.0e-999", "1e-99999",
+        // overflow boundary
+        "1e308", "1.7976931348623157e308", "1.7976931348623158e308", "1.797693134862315807e308",
+        "1.797693134862315808e308", "1.7976931348623159e308", "1e309", "1e400", "1e99999", "1e1_000_000", "2e308",
+        "179769313486231570000000000000000000000000000000000000000000000000000000000000000000000000000000000000000000000000000000000000000000000000000000000000000000000000000000000000000000000000000000000000000000000000000000000000000000000000000000000000000000000000000000000000000000000000000000000000000000000000000000.0",
+        // integer part beyond u64 (the integer pre-pass fails)
+        "18446744073709551615.0", "18446744073709551616.0", "99999999999999999999.5", "18446744073709551616e0",
+        // separators
+        "1_0.5", "1__0.5_", "1_.5", "1._5", "._5", "1._", "1.5_e3", "1.5e_3", "1.5e3_", "1.5e+_3_", "1.5e-__3", "1_e5",
+        "1__2__.3__4__e+__1__5__", "1__2__.3__4__e-__1__5__", "1__2__.3__4__e__1__5__", "1._e5", "1.e_", "1e_", "1.5e+",
+        "1.5e-", ".", ".e5", "._", "1..5", "1.5.5", "1.5e5.5", "1.5e5e5", "1e5i", "1.5i", ".5i", "1.i", "1e+5i", "1.5ei",
+        "1.5 i", "1.5_i",
+    ];
+    let mut out: Vec<String> = Vec::new();
+    for b in &base {
+        out.push(b.to_string());
+        out.push(format!("-{b}"));
+        if !quick {
+            out.push(format!("+{b}"));
+        }
+    }
+    out
+}
+
+fn random_digits(rng: &mut Rng, radix: u32, len: u64) -> String {
+    (0..len).map(|_| char::from_digit(rng.below(radix as u64) as u32, radix).unwrap()).collect()
+}
+
+fn sprinkle_separators(rng: &mut Rng, s: &str) -> String {
+    let mut out = String::new();
+    for c in s.chars() {
+        out.push(c);
+        if c.is_ascii_hexdigit() && rng.chance(1, 6) {
+            out.push('_');
+            if rng.chance(1, 4) {
+                out.push('_');
+            }
+        }
+    }
+    out
+}
+
+fn random_spelling(rng: &mut Rng) -> String {
+    let sign = if rng.chance(1, 3) { "-" } else { "" };
+    let body = match rng.below(8) {
+        0 => {
+            // random u64 (biased to the top of the range) in a random radix
+            let v = match rng.below(3) {
+                0 => rng.next(),
+                1 => u64::MAX - rng.below(1000),
+                _ => (1u64 << 63).wrapping_add(rng.below(2000)).wrapping_sub(1000),
+            };
+            let radix = *rng.pick(&[2u32, 8, 10, 16]);
+            let upper = rng.chance(1, 2);
+            format!("{}{}", prefix(radix, upper), to_radix(v as u128, radix, rng.chance(1, 2)))
+        }
+        1 => {
+            let radix = *rng.pick(&[2u32, 8, 10, 16]);
+            let len = 1 + rng.below(if radix == 2 { 70 } else { 24 });
+            format!("{}{}", prefix(radix, false), random_digits(rng, radix, len))
+        }
+        2 => {
+            // random f64 bits, shortest round-trip rendering
+            let x = f64::from_bits(rng.next() & 0x7fff_ffff_ffff_ffff);
+            if x.is_finite() {
+                format!("{x:e}")
+            } else {
+                "1.5".to_string()
+            }
+        }
+        3 => {
+            let x = f64::from_bits(rng.next() & 0x7fff_ffff_ffff_ffff);
+            if x.is_finite() && x < 1e40 && x > 1e-40 {
+                format!("{x:?}")
+            } else {
+                let (a, b) = (1 + rng.below(5), rng.below(6));
+                format!("{}.{}", random_digits(rng, 10, a), random_digits(rng, 10, b))
+            }
+        }
+        4 => {
+            // many digits (beyond 19 significant) with exponent: exercises lexical's slow path
+            let a = 1 + rng.below(30);
+            let b = rng.below(30);
+            let e = rng.range(-340, 320);
+            format!("{}.{}e{}", random_digits(rng, 10, a), random_digits(rng, 10, b), e)
+        }
+        5 => {
+            // halfway neighbourhoods: exact decimal expansion of (m + 1/2) ulp, nudged
+            let m = (1u64 << 52) | (rng.next() >> 12);
+            let v = (m as u128) * 2 + 1; // odd => exactly between two doubles at scale 2^-1
+            let digits = v.to_string();
+            let nudge = match rng.below(3) {
+                0 => "",
+                1 => "0000000000000000000001",
+                _ => "",
+            };
+            // v / 2 = digits * 5 / 10
+            let times5 = (v * 5).to_string();
+            let (ip, fp) = times5.split_at(times5.len() - 1);
+            let _ = digits;
+            format!("{ip}.{fp}{nudge}")
+        }
+        6 => {
+            let (a, e) = (1 + rng.below(4), rng.range(-30, 30));
+            format!("{}e{}", random_digits(rng, 10, a), e)
+        }
+        _ => {
+            let a = 1 + rng.below(20);
+            format!(".{}", random_digits(rng, 10, a))
+        }
+    };
+    let body = if rng.chance(1, 3) { sprinkle_separators(rng, &body) } else { body };
+    let body = if rng.chance(1, 12) { format!("{body}i") } else { body };
+    format!("{sign}{body}")
+}
+
+fn mutate(rng: &mut Rng, s: &str) -> String {
+    const INS: [char; 14] = ['_', '.', 'e', 'E', '+', '-', '0', '9', 'x', 'b', 'o', 'i', ' ', 'f'];
+    let mut cs: Vec<char> = s.chars().collect();
+    match rng.below(3) {
+        0 if !cs.is_empty() => {
+            let i = rng.below(cs.len() as u64) as usize;
+            cs.remove(i);
+        }
+        1 if !cs.is_empty() => {
+            let i = rng.below(cs.len() as u64) as usize;
+            cs[i] = *rng.pick(&INS);
+        }
+        _ => {
+            let i = rng.below(cs.len() as u64 + 1) as usize;
+            cs.insert(i, *rng.pick(&INS));
+        }
+    }
+    cs.into_iter().collect()
+}
 
 fn main() {
     main_with(run)
 }
 
 fn run(ctx: &mut Ctx) {
-    let (l1, l2) = if ctx.quick() { (4, 3) } else { (6, 5) };
+    let quick = ctx.quick();
+    // 1. corpus: past failures and hand-written witnesses, in every position
+    for s in [
+        "18446744073709551615", // used to become -1 (`v as i64`)
+        "-9223372036854775808", // i64::MIN: representable, used to overflow-panic in debug builds
+        "9223372036854775808",
+        "-9223372036854775809",
+        "9223372036854775807",
+        "0xFFFFFFFFFFFFFFFF",
+        "-0x8000000000000000",
+        "+1",
+        "1.0",
+        "-1.0",
+        "1",
+        "-1",
+        "0x_",
+    ] {
+        all_positions(ctx, s);
+    }
+    // 2. lexer, exhaustive short strings
+    let (l1, l2) = if quick { (4, 3) } else { (6, 5) };
     for len in 0..=l1 {
         all_strings(&A1, len, &mut |s| lex_case(ctx, s));
     }
     for len in 1..=l2 {
         all_strings(&A2, len, &mut |s| lex_case(ctx, s));
+    }
+    // 3. literal spellings in every operand position
+    let ints = integer_spellings(quick);
+    let floats = float_spellings(quick);
+    for s in ints.iter().chain(floats.iter()) {
+        lex_case(ctx, s);
+        all_positions(ctx, s);
+    }
+    // 4. seeded random spellings, valid and mutated, random positions + lexer
+    let mut rng = ctx.rng(5);
+    let n = if quick { 3000 } else { 150_000 };
+    for _ in 0..n {
+        let mut s = random_spelling(&mut rng);
+        if rng.chance(1, 4) {
+            s = mutate(&mut rng, &s);
+        }
+        lex_case(ctx, &s);
+        for _ in 0..3 {
+            let pos = &POSITIONS[rng.below(POSITIONS.len() as u64) as usize];
+            pos_case(ctx, pos, &s);
+        }
+        // the same literal followed by something else on the line / embedded in a bigger expression
+        if rng.chance(1, 4) {
+            lex_case(ctx, &format!("MOVE ro {s} # c\nRX({s}*2) 0"));
+        }
     }
 }
